@@ -396,8 +396,12 @@ func ScriptOutcome(kind string, script []string, http bool) (class string, meta 
 			if !reply("error:custom.error") {
 				stop = true
 			}
-		case "errplain":
+		case "errplain", "errwrap":
 			if !reply("error:system.internalError") {
+				stop = true
+			}
+		case "errStd":
+			if !reply("error:system.notFound") {
 				stop = true
 			}
 		case "notfound":
@@ -416,7 +420,7 @@ func ScriptOutcome(kind string, script []string, http bool) (class string, meta 
 				meta = status
 			}
 			stop = true
-		case "panicPlain", "panicStr", "panic42", "panicNilErr":
+		case "panicPlain", "panicStr", "panic42", "panicNilErr", "panicWrap":
 			if !replied {
 				replied = true
 				class = "error:system.internalError"
